@@ -407,8 +407,8 @@ class CallMixin:
         site = self.call_site_name(fi, node)
         for i, req in enumerate(c.caller_requires):
             self.check_spec(req, f'{site}::{fi.qualname}#caller-req{i+1}', 'pre@call')
-        if self.frames and c.requires:
-            # a callee precondition may relate the actual arguments to the PARAMETERS of the function under
+        if self.frames:
+            # a callee precondition / postcondition may relate the actual arguments to the PARAMETERS of the function under
             # contract (stable names, unlike its locals): they are visible as caller_<name>
             top = self.frames[0]
             a0 = top.func.node.args
